@@ -3,8 +3,8 @@
 (* files recorded from the real library; comparison inside TLC.                     *)
 EXTENDS RVFormat, TLCExt
 Traces == JsonDeserialize(IOEnv.RV_TRACE_FILE)
-VARIABLES tid, l, ok
-TInit == tid \in 1..Len(Traces) /\ l = 1 /\ ok = TRUE
+VARIABLES tid, l, ok, base      \* base: the object an "edit" event starts from (set by a "base" event)
+TInit == tid \in 1..Len(Traces) /\ l = 1 /\ ok = TRUE /\ base = [kind |-> "none"]
 Ev == Traces[tid].events[l]
 Say(clause, exp, got) ==
   PrintT(ToJson([v |-> "MISMATCH", id |-> Traces[tid].id, l |-> l, op |-> Ev.op, clause |-> clause, exp |-> exp, got |-> got]))
@@ -43,6 +43,13 @@ StepEv(e) ==
     [] e.op = "load" ->          \* C04: the loaded object is what the chunks denote
        (IF e.outcome # "ok" THEN Say("load-raised", "ok", e.outcome) /\ ok' = FALSE
         ELSE LET d == DiffObj(Read(e.chunks), e.obj) IN DiffSay("read", d) /\ ok' = (ok /\ d = <<>>))
+    [] e.op = "load_same" ->     \* C04: chunks with unknown ids are skipped without changing anything else
+       (IF e.outcome # "ok" THEN Say("load-raised-on-unknown-chunk", "ok", e.outcome) /\ ok' = FALSE
+        ELSE LET r == Read(e.chunks)
+                 d0 == DiffObj(Read(e.same_as), r)        \* design level: the spec's own reader skips it
+                 d == DiffObj(r, e.obj) IN
+             /\ DiffSay("spec-reader-not-invariant", d0) /\ DiffSay("read-with-unknown-chunk", d)
+             /\ ok' = (ok /\ d0 = <<>> /\ d = <<>>))
     [] e.op = "roundtrip" ->     \* C01/C02/C15/C16: object -> bytes -> object; e.orig, e.chunks, e.back
        (IF e.outcome # "ok" THEN Say("written-file-not-loadable", "ok", e.outcome) /\ ok' = FALSE
         ELSE LET d1 == DiffObj(Norm(e.orig), Norm(e.back))
@@ -54,7 +61,7 @@ StepEv(e) ==
     [] e.op = "resave" ->        \* C05: X -> load -> Y -> load -> Y2, Y3 ... ; e.first = Y, e.again = <<Y2, Y3, ...>>,
                                  \* e.obj1 / e.obj2 the objects loaded from X and from Y, e.pure: snapshots before/after saving equal
        (LET badi == {i \in 1..Len(e.again) : e.again[i] # e.first}
-            d == DiffObj(Norm(e.obj1), Norm(e.obj2))
+            d == DiffObj(BlankVers(Norm(e.obj1)), BlankVers(Norm(e.obj2)))
             w == ~e.w \/ WriteOK(e.obj2, e.first) IN
         /\ Check(badi = {}, "resave-drift", "identical bytes", IF badi = {} THEN <<>> ELSE
                   LET i == CHOOSE i \in badi : TRUE  p == FirstDiff(e.first, e.again[i]) IN <<i, Ctx(e.first, p), At(e.first, p), At(e.again[i], p)>>)
@@ -62,15 +69,21 @@ StepEv(e) ==
         /\ Check(e.pure, "saving-changed-the-object", "unchanged", "changed")
         /\ (IF e.w THEN WriteSay(e.obj2, e.first) ELSE TRUE)
         /\ ok' = (ok /\ badi = {} /\ d = <<>> /\ e.pure /\ w))
+    [] e.op = "base" -> UNCHANGED ok
     [] e.op = "edit" ->          \* C06: load, change one attribute, save, load: the change and only the change
        (IF e.outcome # "ok" THEN Say("edited-file-not-loadable", "ok", e.outcome) /\ ok' = FALSE
-        ELSE LET exp == Norm(SetPath(e.before, e.path, e.value))
-                 d == DiffObj(exp, Norm(e.after)) IN
-             DiffSay("edit:" \o e.kind, d) /\ ok' = (ok /\ d = <<>>))
+        ELSE LET exp == BlankVers(Norm(SetPath(base, e.path, e.value)))
+                 d == DiffObj(exp, BlankVers(Norm(e.after)))
+                 \* the bytes saved after the edit are the encoding of the CURRENT state (nothing replayed, nothing omitted)
+                 w == ~e.w \/ WriteOK(e.edited, e.chunks) IN
+             /\ DiffSay("edit:" \o e.kind, d)
+             /\ (IF e.w THEN WriteSay(e.edited, e.chunks) ELSE TRUE)
+             /\ ok' = (ok /\ d = <<>> /\ w))
     [] OTHER -> Say("unknown-op", "", e.op) /\ ok' = FALSE
 Step == /\ l <= Len(Traces[tid].events) /\ StepEv(Ev) /\ l' = l + 1 /\ UNCHANGED tid
+        /\ base' = IF Ev.op = "base" THEN Ev.obj ELSE base
 Done == /\ l = Len(Traces[tid].events) + 1
         /\ PrintT(ToJson([v |-> IF ok THEN "ACCEPT" ELSE "REJECT", id |-> Traces[tid].id, n |-> l - 1]))
-        /\ l' = l + 1 /\ UNCHANGED <<tid, ok>>
+        /\ l' = l + 1 /\ UNCHANGED <<tid, ok, base>>
 TNext == Step \/ Done
 =============================================================================
